@@ -318,10 +318,11 @@ def settings_sig(st):
     return ",".join(parts) or "default"
 
 
-def check_histories(ctx, items, what, min_shard=40):
+def check_histories(ctx, items, what, min_shard=40, reported=None):
     """items: list of (np, settings, steps, same_objects).  Replays each history on the real chain,
     validates the recorded runs with Trace_Output.tla, accounts them, and reports one violation per
-    (predicate, settings, minimal set of touches of the failing run)."""
+    (first failing predicate, minimal set of touches of the failing run); `reported` collects these pairs
+    across calls so that a later (sparser) batch does not report the same failure under another name."""
     import multiprocessing
     if not items:
         return 0
@@ -369,10 +370,15 @@ def check_histories(ctx, items, what, min_shard=40):
         # one violation per minimal set of touches
         minimal = set(x[0] for x in lst if not any(y[0] < x[0] for y in lst))
         for tset in sorted(minimal, key=sorted):
+            if reported is not None:
+                if (pred, tset) in reported:
+                    continue
+                reported.add((pred, tset))
             xs = [x for x in lst if x[0] == tset]
-            # the settings go into the key only when the failure is specific to one non-default setting
+            # the options go into the key only when every failing history has them in common
             ssigs = sorted(set(x[1] for x in xs))
-            suffix = ":" + ssigs[0] if len(ssigs) == 1 and ssigs[0] != "default" else ""
+            common = set.intersection(*[set(x.split(",")) - {"default"} for x in ssigs])
+            suffix = ":" + ",".join(sorted(common)) if common else ""
             _, _, rec, j, p = min(xs, key=lambda x: (x[1] != "default", len(x[2]["runs"]), x[2]["np"], x[2]["gi"]))
             ctx.violation("Output:%s:%s%s" % (pred, "+".join(sorted(tset)), suffix), {
                 "found_by": what, "np": rec["np"], "settings": rec["set"], "same_objects": rec["same_objects"],
